@@ -112,6 +112,10 @@ class File(AS.Function):
         def _fn(do_IO: DoIO) -> AS.EvalContext:
             del do_IO  # Unused
             try:
+                if "a" in getattr(self._file, "mode", ""):
+                    # Append writes land at the end of the file: move there first so
+                    # that the reported position stays in step with the data.
+                    self._file.seek(0, io.SEEK_END)
                 count = self._file.write(content.value)
             except (OSError, ValueError) as err:
                 raise _translate_io_error(metadata, err) from None
